@@ -54,3 +54,46 @@ func DecodeRunsOK(data []byte, out []byte) (int, error) {
 	}
 	return pos, nil
 }
+
+// DecodeChunk reads a 32-bit chunk length and allocates the read buffer before finding out
+// whether the stream holds that many bytes (ALLOC-READBUF control: 8 header bytes request 4 GiB).
+func DecodeChunk(data []byte) ([]byte, error) {
+	if len(data) < 8 {
+		return nil, errShort
+	}
+	n := uint32(data[4])<<24 | uint32(data[5])<<16 | uint32(data[6])<<8 | uint32(data[7])
+	body := make([]byte, int(n))
+	if copy(body, data[8:]) < len(body) {
+		return nil, errShort
+	}
+	return body, nil
+}
+
+// DecodeChunkOK is the corrected twin: the declared length is compared with what is left of the
+// input before the buffer is made (must be discharged).
+func DecodeChunkOK(data []byte) ([]byte, error) {
+	if len(data) < 8 {
+		return nil, errShort
+	}
+	n := uint32(data[4])<<24 | uint32(data[5])<<16 | uint32(data[6])<<8 | uint32(data[7])
+	if int(n) > len(data)-8 {
+		return nil, errShort
+	}
+	body := make([]byte, int(n))
+	copy(body, data[8:])
+	return body, nil
+}
+
+// DecodeSegment reads a 16-bit segment length: at most 64 KiB whatever the stream says (must be
+// discharged by the width of the field).
+func DecodeSegment(data []byte) ([]byte, error) {
+	if len(data) < 2 {
+		return nil, errShort
+	}
+	n := int(data[0])<<8 | int(data[1])
+	body := make([]byte, n)
+	if copy(body, data[2:]) < n {
+		return nil, errShort
+	}
+	return body, nil
+}
